@@ -263,8 +263,8 @@ func main() {
 
 	// L2 part: one child process per scenario.
 	l2Start := time.Now()
-	var l2Evaluated, l2Replied, l2AllowedFailures, l2Rebroadcasts, l2CoJudged, l2CoDeep atomic.Int64
-	nL2 := r.Pick(16, 600)
+	var l2Evaluated, l2Replied, l2AllowedFailures, l2Rebroadcasts, l2CoJudged, l2CoDeep, l2Foreign atomic.Int64
+	nL2 := r.Pick(17, 600)
 	if *busyOnly {
 		nL2 = 0
 	}
@@ -276,6 +276,7 @@ func main() {
 			l2Rebroadcasts.Add(res.Counters["l2_rebroadcast_seen_by_all_peers"])
 			l2CoJudged.Add(res.Counters["l2_cosub_rebroadcast_judged"])
 			l2CoDeep.Add(res.Counters["l2_cosub_cancel_with_21plus_unread"])
+			l2Foreign.Add(res.Counters["l2_foreign_first_peers_judged"])
 		})
 	}
 	r.Set("l2_phase_wall_s", time.Since(l2Start).Seconds())
